@@ -145,8 +145,9 @@ TStr == B("string")
 AT == AL("p1", "AT", T1)        \* type AT = T
 AI == AL("p2", "AI", TInt)       \* type AI = int
 GlobalArgs ==
-  {TInt, TStr, T1, T2, N("p1", "U"), AT, AI, P(T1), S(T2), MP(TStr, T2), GI("p1", "G", <<TInt>>), GI("p1", "G", <<T2>>)}
-  \cup (IF Rich THEN {P(T2), S(T1), S(AT), P(P(T1)), MP(T1, TInt), MP(TStr, T1), FN(T1), FN(T2), ST(T1), ST(T2),
+  {TInt, TStr, T1, T2, N("p1", "U"), AT, AI, P(T1), S(T2), MP(TStr, T2), GI("p1", "G", <<TInt>>), GI("p1", "G", <<T2>>),
+   ST(T1), ST(T2), FN(T1), FN(T2)}      \* unnamed composite arguments mentioning the same-named types of two packages
+  \cup (IF Rich THEN {P(T2), S(T1), S(AT), P(P(T1)), MP(T1, TInt), MP(TStr, T1),
                       GI("p2", "G", <<TInt>>), GI("p1", "G", <<AT>>), GI("p1", "G", <<T1>>), GI("p1", "G", <<AI>>),
                       GI("p1", "G", <<GI("p1", "G", <<TInt>>)>>), N("p2", "U")}
         ELSE {})
